@@ -120,3 +120,14 @@ Theorem generated_filter_candset_refines_model :
   ltac:(let t := type of filter_candset_rows_end_to_end in exact t).
 Proof. exact filter_candset_rows_end_to_end. Qed.
 Print Assumptions generated_filter_candset_refines_model.
+
+(* ==== the property stated DIRECTLY ABOUT THE CODE: the function regenerated from the Python source on this
+   run (Gen/WrapperGen.v, Gen/FilterWrapperGen.v, Gen/MatcherGen.v), applied to any well-formed frames,
+   returns a frame with header header_spec whose rows, read at key level (kview: left key, right key,
+   score), satisfy complete_spec /\ sound_spec /\ missing_spec /\ empty_spec (Spec/JoinSpec.v, MetaSpec.v)
+   -- composition of `generated code refines api_join` with `api_join satisfies the specs` *)
+From SSJ Require Import CodeLevelBase CodeLevelJoins CodeLevelJoins2 CodeLevelFilters CodeLevelMatcher CodeLevelTight.
+Theorem C06_code_overlap_filter :
+  ltac:(let t := type of C06_code_overlap_filter_tables in exact t).
+Proof. exact C06_code_overlap_filter_tables. Qed.
+Print Assumptions C06_code_overlap_filter.
